@@ -21,7 +21,6 @@ pub uninterp spec fn set_seq(s: Set<(String, (String, Pt))>) -> Seq<(String, (St
 #[verifier::external_body] pub fn query_set_to_vec(s: &BTreeSet<(String, (String, Pt))>) -> (r: Vec<&(String, (String, Pt))>)
     ensures r@.len() == set_seq(s@).len(), forall|i: int| 0 <= i < r@.len() ==> *(#[trigger] r@[i]) == set_seq(s@)[i],
             forall|q: (String, (String, Pt))| s@.contains(q) == (exists|i: int| 0 <= i < set_seq(s@).len() && #[trigger] set_seq(s@)[i] == q) { unimplemented!() }
-#[verifier::external_body] pub fn string_to_string(s: &String) -> (r: String) ensures r == *s { unimplemented!() }
 pub open spec fn set_vals(s: Set<&String>) -> Set<String> { s.map(|r: &String| *r) }
 // `let labels = m.entry(point_label).or_insert((point, BTreeSet::new())); labels.1.insert(label);`
 #[verifier::external_body]
